@@ -1,0 +1,111 @@
+//go:build verif
+
+// Contracts for the verification machinery in /verif (comment-only; compiled only with -tags verif).
+// C35 (LEB128 half). The encodings are specified byte by byte from the LEB128 definition: byte k carries
+// bits 7k..7k+6 of the value, all bytes but the last have the continuation bit set, and the canonical
+// length is the smallest that represents the value. Decoders carry the value as a ghost variable:
+// "if the input starts with the n-byte encoding of v, the result is (v, n, nil)". A decoder's
+// precondition is literally the matching encoder's postcondition, which is the round trip.
+package leb128
+
+//@ spec uleb_len32(v) = ite(v < 128, 1, ite(v < 16384, 2, ite(v < 2097152, 3, ite(v < 268435456, 4, 5))))
+//@ spec uleb_len64(v) = ite(v < 128, 1, ite(v < 16384, 2, ite(v < 2097152, 3, ite(v < 268435456, 4, ite(v < 34359738368, 5, ite(v < 4398046511104, 6, ite(v < 562949953421312, 7, ite(v < 72057594037927936, 8, ite(v < 9223372036854775808, 9, 10)))))))))
+//@ spec sleb_len32(v) = ite(v >= -64 && v < 64, 1, ite(v >= -8192 && v < 8192, 2, ite(v >= -1048576 && v < 1048576, 3, ite(v >= -134217728 && v < 134217728, 4, 5))))
+//@ spec sleb_len64(v) = ite(v >= -64 && v < 64, 1, ite(v >= -8192 && v < 8192, 2, ite(v >= -1048576 && v < 1048576, 3, ite(v >= -134217728 && v < 134217728, 4, ite(v >= -17179869184 && v < 17179869184, 5, ite(v >= -2199023255552 && v < 2199023255552, 6, ite(v >= -281474976710656 && v < 281474976710656, 7, ite(v >= -36028797018963968 && v < 36028797018963968, 8, ite(v >= -4611686018427387904 && v < 4611686018427387904, 9, 10)))))))))
+//@ spec uleb_enc32(d, off, v, n) = len(d) - off >= n && (0 < n ==> d[off + 0] == byte((v) & 0x7f) | ite(0 < n - 1, byte(0x80), byte(0))) && (1 < n ==> d[off + 1] == byte((v >> 7) & 0x7f) | ite(1 < n - 1, byte(0x80), byte(0))) && (2 < n ==> d[off + 2] == byte((v >> 14) & 0x7f) | ite(2 < n - 1, byte(0x80), byte(0))) && (3 < n ==> d[off + 3] == byte((v >> 21) & 0x7f) | ite(3 < n - 1, byte(0x80), byte(0))) && (4 < n ==> d[off + 4] == byte((v >> 28) & 0x7f) | ite(4 < n - 1, byte(0x80), byte(0)))
+//@ spec uleb_enc64(d, off, v, n) = len(d) - off >= n && (0 < n ==> d[off + 0] == byte((v) & 0x7f) | ite(0 < n - 1, byte(0x80), byte(0))) && (1 < n ==> d[off + 1] == byte((v >> 7) & 0x7f) | ite(1 < n - 1, byte(0x80), byte(0))) && (2 < n ==> d[off + 2] == byte((v >> 14) & 0x7f) | ite(2 < n - 1, byte(0x80), byte(0))) && (3 < n ==> d[off + 3] == byte((v >> 21) & 0x7f) | ite(3 < n - 1, byte(0x80), byte(0))) && (4 < n ==> d[off + 4] == byte((v >> 28) & 0x7f) | ite(4 < n - 1, byte(0x80), byte(0))) && (5 < n ==> d[off + 5] == byte((v >> 35) & 0x7f) | ite(5 < n - 1, byte(0x80), byte(0))) && (6 < n ==> d[off + 6] == byte((v >> 42) & 0x7f) | ite(6 < n - 1, byte(0x80), byte(0))) && (7 < n ==> d[off + 7] == byte((v >> 49) & 0x7f) | ite(7 < n - 1, byte(0x80), byte(0))) && (8 < n ==> d[off + 8] == byte((v >> 56) & 0x7f) | ite(8 < n - 1, byte(0x80), byte(0))) && (9 < n ==> d[off + 9] == byte((v >> 63) & 0x7f) | ite(9 < n - 1, byte(0x80), byte(0)))
+//@ spec sleb_enc32(d, off, v, n) = len(d) - off >= n && (0 < n ==> d[off + 0] == byte((v) & 0x7f) | ite(0 < n - 1, byte(0x80), byte(0))) && (1 < n ==> d[off + 1] == byte((v >> 7) & 0x7f) | ite(1 < n - 1, byte(0x80), byte(0))) && (2 < n ==> d[off + 2] == byte((v >> 14) & 0x7f) | ite(2 < n - 1, byte(0x80), byte(0))) && (3 < n ==> d[off + 3] == byte((v >> 21) & 0x7f) | ite(3 < n - 1, byte(0x80), byte(0))) && (4 < n ==> d[off + 4] == byte((v >> 28) & 0x7f) | ite(4 < n - 1, byte(0x80), byte(0)))
+//@ spec sleb_enc64(d, off, v, n) = len(d) - off >= n && (0 < n ==> d[off + 0] == byte((v) & 0x7f) | ite(0 < n - 1, byte(0x80), byte(0))) && (1 < n ==> d[off + 1] == byte((v >> 7) & 0x7f) | ite(1 < n - 1, byte(0x80), byte(0))) && (2 < n ==> d[off + 2] == byte((v >> 14) & 0x7f) | ite(2 < n - 1, byte(0x80), byte(0))) && (3 < n ==> d[off + 3] == byte((v >> 21) & 0x7f) | ite(3 < n - 1, byte(0x80), byte(0))) && (4 < n ==> d[off + 4] == byte((v >> 28) & 0x7f) | ite(4 < n - 1, byte(0x80), byte(0))) && (5 < n ==> d[off + 5] == byte((v >> 35) & 0x7f) | ite(5 < n - 1, byte(0x80), byte(0))) && (6 < n ==> d[off + 6] == byte((v >> 42) & 0x7f) | ite(6 < n - 1, byte(0x80), byte(0))) && (7 < n ==> d[off + 7] == byte((v >> 49) & 0x7f) | ite(7 < n - 1, byte(0x80), byte(0))) && (8 < n ==> d[off + 8] == byte((v >> 56) & 0x7f) | ite(8 < n - 1, byte(0x80), byte(0))) && (9 < n ==> d[off + 9] == byte((v >> 63) & 0x7f) | ite(9 < n - 1, byte(0x80), byte(0)))
+
+//@ func AppendUint32
+//@   mode bv
+//@   option split=1
+//@   props C35
+//@   nofail
+//@   loop 1 unroll 5
+//@   ensures[C35] len(result) == len(data) + uleb_len32(v)
+//@   ensures[C35] uleb_enc32(result, len(data), v, uleb_len32(v))
+//@   ghost j int
+//@   ensures[C35] 0 <= j && j < len(data) ==> result[j] == data[j]
+//@ func ReadUint32
+//@   mode bv
+//@   props C35
+//@   ghost v uint32
+//@   ghost n int
+//@   requires n >= 1 && n <= 5 && uleb_enc32(data, 0, v, n)
+//@   requires n == 5 || v >> uint(7 * n) == 0
+//@   nofail
+//@   loop 1 unroll 5
+//@   ensures[C35] err == nil && result == v && count == n
+
+//@ func AppendUint64
+//@   mode bv
+//@   option split=1
+//@   props C35
+//@   nofail
+//@   loop 1 unroll 10
+//@   ensures[C35] len(result) == len(data) + uleb_len64(v)
+//@   ensures[C35] uleb_enc64(result, len(data), v, uleb_len64(v))
+//@   ghost j int
+//@   ensures[C35] 0 <= j && j < len(data) ==> result[j] == data[j]
+//@ func ReadUint64
+//@   mode bv
+//@   props C35
+//@   ghost v uint64
+//@   ghost n int
+//@   requires n >= 1 && n <= 10 && uleb_enc64(data, 0, v, n)
+//@   requires n == 10 || v >> uint(7 * n) == 0
+//@   nofail
+//@   loop 1 unroll 10
+//@   ensures[C35] err == nil && result == v && count == n
+
+//@ func AppendInt32
+//@   mode bv
+//@   option split=1
+//@   props C35
+//@   nofail
+//@   loop 1 unroll 5
+//@   ensures[C35] len(result) == len(data) + sleb_len32(v)
+//@   ensures[C35] sleb_enc32(result, len(data), v, sleb_len32(v))
+//@   ghost j int
+//@   ensures[C35] 0 <= j && j < len(data) ==> result[j] == data[j]
+//@ func ReadInt32
+//@   mode bv
+//@   props C35
+//@   ghost v int32
+//@   ghost n int
+//@   requires n >= 1 && n <= 5 && sleb_enc32(data, 0, v, n)
+//@   requires n == 5 || v >> uint(7 * n - 1) == 0 || v >> uint(7 * n - 1) == -1
+//@   nofail
+//@   loop 1 unroll 5
+//@   ensures[C35] err == nil && result == v && count == n
+
+//@ func AppendInt64
+//@   mode bv
+//@   option split=1
+//@   props C35
+//@   nofail
+//@   loop 1 unroll 10
+//@   ensures[C35] len(result) == len(data) + sleb_len64(v)
+//@   ensures[C35] sleb_enc64(result, len(data), v, sleb_len64(v))
+//@   ghost j int
+//@   ensures[C35] 0 <= j && j < len(data) ==> result[j] == data[j]
+//@ func ReadInt64
+//@   mode bv
+//@   props C35
+//@   ghost v int64
+//@   ghost n int
+//@   requires n >= 1 && n <= 10 && sleb_enc64(data, 0, v, n)
+//@   requires n == 10 || v >> uint(7 * n - 1) == 0 || v >> uint(7 * n - 1) == -1
+//@   nofail
+//@   loop 1 unroll 10
+//@   ensures[C35] err == nil && result == v && count == n
+
+//@ func AppendUint32FixedLength
+//@   mode bv
+//@   props C35
+//@   requires length >= 0 && length <= 5
+//@   nofail
+//@   loop 1 unroll 5
+//@   ensures[C35] iff(result1 == nil, length == 5 || v >> uint(7 * length) == 0)
+//@   ensures[C35] result1 == nil ==> len(result0) == len(data) + length && uleb_enc32(result0, len(data), v, length)
